@@ -207,6 +207,47 @@ def checker_validation(prop, root, jobs=16):
     return res
 
 
+def historical_defects(prop, root):
+    """Regression of the checker on the real defects it led to: for every `fixed:` entry of this property, analyse the
+    tree as it was just before the fix commit (petl/ extracted with `git archive` into a scratch directory, nothing is
+    checked out in /repo) and expect the check to report a violation there."""
+    import re
+    kf = os.path.join(VERIF, 'known_findings.json')
+    out = {}
+    if not os.path.isdir(os.path.join(root, '.git')) and not os.path.isfile(os.path.join(root, '.git')):
+        return {'status': 'no git history at %s' % root}
+    try:
+        fixed = json.load(open(kf)).get('fixed', [])
+    except (OSError, ValueError):
+        return {'status': 'known_findings.json unreadable'}
+    py = sys.executable
+    for line in fixed:
+        m = re.match(r'fixed: property=(C\d\d) ([0-9a-f]{7,40}) (.*)', line)
+        if not m:
+            continue
+        also = re.findall(r'also (C\d\d(?:[ ,]+C\d\d)*)', line)
+        props = [m.group(1)] + ([x for a in also for x in re.findall(r'C\d\d', a)])
+        if prop not in props:
+            continue
+        commit = m.group(2)
+        work = tempfile.mkdtemp(prefix='petlsa_hist_')
+        try:
+            ar = subprocess.run('git -C %s archive %s^ petl | tar -x -C %s' % (root, commit, work), shell=True,
+                                stdout=subprocess.PIPE, stderr=subprocess.STDOUT, universal_newlines=True)
+            if ar.returncode != 0 or not os.path.isdir(os.path.join(work, 'petl')):
+                out[commit] = 'unavailable (%s)' % ar.stdout.strip()[:80]
+                continue
+            r = subprocess.run([py, '-B', '-m', 'petlsa.cli', prop, 'quick', '--root', work, '--no-write'],
+                               cwd=VERIF, stdout=subprocess.PIPE, stderr=subprocess.STDOUT, universal_newlines=True,
+                               timeout=600)
+            nv = sum(1 for l in r.stdout.splitlines() if l.startswith('VIOLATION '))
+            out[commit] = ('reported on the parent tree (%d violation lines)' % nv) if r.returncode == 1 else \
+                ('NOT reported on the parent tree (exit %d)' % r.returncode)
+        finally:
+            shutil.rmtree(work, ignore_errors=True)
+    return out
+
+
 def main(argv, root):
     jobs = 16
     verbose = False
